@@ -124,7 +124,7 @@ Holds(r, ev, PP, M) ==
         okPre == PP.status = "Conforming"
         P == PP.lines
         Q == SplitLines(o.post)
-        judged == live /\ okPre /\ M.st # "unspec"
+        judged == live /\ okPre /\ M.st # "unspec" /\ ~c.nofile
     IN
     CASE r = "C03.Frame" -> judged /\ o.code = 0 /\ M.st = "ok" => FrameOK(cmd, M, PP, P, Q)
       [] r = "C04.Accept" -> judged /\ M.st = "ok" => o.code = 0
@@ -134,7 +134,7 @@ Holds(r, ev, PP, M) ==
       [] r = "C05.NoPanic" -> ev.panic = ""
       [] r = "C05.Atomic" -> live /\ o.code # 0 => o.post = c.pre /\ ~o.touched
       [] r = "C05.Valid" -> live /\ o.code = 0 => o.parsed_ok /\ ParseDoc(o.post).status # "Violating"
-      [] r = "C05.ExitCode" -> live /\ PP.status = "Violating" => o.code # 0
+      [] r = "C05.ExitCode" -> live /\ (PP.status = "Violating" \/ c.nofile) => o.code # 0 /\ o.post = c.pre
       [] r = "C11.Style" -> judged /\ o.code = 0 /\ M.st = "ok" /\ FrameOK(cmd, M, PP, P, Q) => StyleOK(cmd, c.cfg, M, PP, P, Q)
       [] r = "C11.Deterministic" -> live => o.repeat_equal
       [] r = "C11.Accepted" -> judged /\ M.st = "ok" => o.code = 0 /\ o.parsed_ok
